@@ -105,6 +105,7 @@ func genC05(t *rapid.T) c05Case {
 		queues[i] = genArrival(t, len(tr.Bodies), fmt.Sprintf("arr%d", i))
 	}
 	started := make([]bool, len(c.Transfers))
+	restarted := false
 	ser := uint16(rapid.IntRange(0, 65535).Draw(t, "serial0"))
 	remaining := 0
 	for _, q := range queues {
@@ -122,6 +123,15 @@ func genC05(t *rapid.T) c05Case {
 		c.Events = append(c.Events, event{Kind: "pkt", T: k, No: no, Ser: ser})
 		ser++
 		started[k] = true
+		if !restarted && len(c.Transfers[k].Bodies) >= 3 && len(queues[k]) >= 1 && rapid.IntRange(0, 9).Draw(t, "restart") == 0 {
+			// the terminal abandons the incomplete transfer and sends the same message ID again from packet 1
+			restarted = true
+			c.Events = append(c.Events, event{Kind: "pkt", T: k, No: 1, Ser: ser})
+			ser++
+			fresh := genArrival(t, len(c.Transfers[k].Bodies), fmt.Sprintf("rearr%d", k))[1:]
+			remaining += len(fresh) - len(queues[k])
+			queues[k] = fresh
+		}
 		switch rapid.IntRange(0, 7).Draw(t, "extra") {
 		case 0: // ordinary message in between
 			c.Events = append(c.Events, event{Kind: "plain", Ser: ser, Body: nil})
@@ -177,6 +187,8 @@ func checkC05(c c05Case, _ *kit.Collector) kit.Result {
 	completesGot := make([]int, len(c.Transfers))
 	consumed, next := 0, 0
 	dups, imposs, outOfOrder := false, false, false
+	restartSeen := false
+	seenFirst := make([]bool, len(c.Transfers))
 	lastNo := make([]uint16, len(c.Transfers))
 	for j, p := range parts {
 		consumed += len(p)
@@ -195,6 +207,10 @@ func checkC05(c c05Case, _ *kit.Collector) kit.Result {
 				}
 				lastNo[e.T] = e.No
 				if e.No == 1 {
+					if seenFirst[e.T] && m.open {
+						restartSeen = true
+					}
+					seenFirst[e.T] = true
 					*m = reasm{slots: make([][]byte, len(tr.Bodies)), open: true}
 				}
 				if !m.open {
@@ -275,6 +291,7 @@ func checkC05(c c05Case, _ *kit.Collector) kit.Result {
 	lab(imposs, "impossible_packet")
 	lab(outOfOrder, "out_of_order")
 	lab(len(c.Transfers) == 2, "two_transfers")
+	lab(restartSeen, "transfer_restarted")
 	lab(c.Reuse, "reused_buffer")
 	res.NT = (n >= 3 && outOfOrder) || dups || imposs
 	return res
